@@ -2,6 +2,7 @@ package main
 
 import (
 	"errors"
+	"fmt"
 	"io"
 	"sync"
 	"time"
@@ -14,9 +15,10 @@ import (
 // model: Model/Candidate.v run_candidate (component 14)
 
 type pendRPC struct {
-	kind  int // 1 vote, 2 prevote
-	term  uint64
-	reply chan pendAns
+	kind   int // 1 vote, 2 prevote
+	term   uint64
+	target uint64
+	reply  chan pendAns
 }
 type pendAns struct {
 	err        bool
@@ -32,11 +34,11 @@ type scriptTrans struct {
 	pending  []*pendRPC
 }
 
-func (t *scriptTrans) Consumer() <-chan raft.RPC     { return t.consumer }
-func (t *scriptTrans) LocalAddr() raft.ServerAddress { return addrStr(t.id) }
+func (t *scriptTrans) Consumer() <-chan raft.RPC                                { return t.consumer }
+func (t *scriptTrans) LocalAddr() raft.ServerAddress                            { return addrStr(t.id) }
 func (t *scriptTrans) EncodePeer(id raft.ServerID, a raft.ServerAddress) []byte { return []byte(a) }
-func (t *scriptTrans) DecodePeer(b []byte) raft.ServerAddress { return raft.ServerAddress(b) }
-func (t *scriptTrans) SetHeartbeatHandler(cb func(rpc raft.RPC))          {}
+func (t *scriptTrans) DecodePeer(b []byte) raft.ServerAddress                   { return raft.ServerAddress(b) }
+func (t *scriptTrans) SetHeartbeatHandler(cb func(rpc raft.RPC))                {}
 func (t *scriptTrans) AppendEntriesPipeline(id raft.ServerID, target raft.ServerAddress) (raft.AppendPipeline, error) {
 	return nil, raft.ErrPipelineReplicationNotSupported
 }
@@ -49,8 +51,8 @@ func (t *scriptTrans) InstallSnapshot(id raft.ServerID, target raft.ServerAddres
 func (t *scriptTrans) TimeoutNow(id raft.ServerID, target raft.ServerAddress, args *raft.TimeoutNowRequest, resp *raft.TimeoutNowResponse) error {
 	return errLink
 }
-func (t *scriptTrans) wait(kind int, term uint64) pendAns {
-	p := &pendRPC{kind: kind, term: term, reply: make(chan pendAns, 1)}
+func (t *scriptTrans) wait(kind int, term uint64, target uint64) pendAns {
+	p := &pendRPC{kind: kind, term: term, target: target, reply: make(chan pendAns, 1)}
 	t.mu.Lock()
 	t.pending = append(t.pending, p)
 	t.mu.Unlock()
@@ -62,7 +64,7 @@ func (t *scriptTrans) wait(kind int, term uint64) pendAns {
 	}
 }
 func (t *scriptTrans) RequestVote(id raft.ServerID, target raft.ServerAddress, args *raft.RequestVoteRequest, resp *raft.RequestVoteResponse) error {
-	a := t.wait(1, args.Term)
+	a := t.wait(1, args.Term, addrNum(target))
 	if a.err {
 		return errLink
 	}
@@ -70,7 +72,7 @@ func (t *scriptTrans) RequestVote(id raft.ServerID, target raft.ServerAddress, a
 	return nil
 }
 func (t *scriptTrans) RequestPreVote(id raft.ServerID, target raft.ServerAddress, args *raft.RequestPreVoteRequest, resp *raft.RequestPreVoteResponse) error {
-	a := t.wait(2, args.Term)
+	a := t.wait(2, args.Term, addrNum(target))
 	if a.unexpected {
 		return errors.New("unexpected command")
 	}
@@ -112,10 +114,10 @@ func (t *scriptTrans) takeAll() []*pendRPC {
 }
 
 type c14case struct {
-	self     uint64
-	prevote  bool
-	transfer bool
-	cfg      []srv
+	self                       uint64
+	prevote                    bool
+	transfer                   bool
+	cfg                        []srv
 	term, vterm, vcand, li, lt uint64
 }
 
@@ -126,7 +128,7 @@ func (cs *c14case) header() []uint64 {
 }
 
 // run one adaptive candidate session; returns the events performed and the observations
-func c14run(cs *c14case, r *rng, steps int, scripted []uint64) (events []uint64, obs []uint64) {
+func c14run(cs *c14case, r *rng, steps int, scripted []uint64) (events []uint64, obs []uint64, mons []string) {
 	logs, stable, snaps := NewMapLogStore(nil), NewMapStable(), NewSnapStore()
 	logs.m[1] = &raft.Log{Index: 1, Term: 1, Type: raft.LogConfiguration, Data: raft.EncodeConfiguration(mkConfig(cs.cfg))}
 	for i := uint64(2); i <= cs.li; i++ {
@@ -217,6 +219,28 @@ func c14run(cs *c14case, r *rng, steps int, scripted []uint64) (events []uint64,
 		mu.Unlock()
 		obs = append(obs, 99)
 	}
+	// the property's own bookkeeping: pre-vote grants of this round that came from voters
+	isVoter := map[uint64]bool{}
+	nVoters := 0
+	for _, sv := range cs.cfg {
+		if sv.suff == 0 {
+			isVoter[sv.id] = true
+			nVoters++
+		}
+	}
+	quorum := nVoters/2 + 1
+	voterGrants := 0
+	if isVoter[cs.self] {
+		voterGrants = 1
+	}
+	termAtRound := cs.term
+	checkElection := func() {
+		// an election (term bump) of a pre-vote round must rest on a quorum of voters' pre-votes
+		// (a term learned from an answer is not an election: then the server is a follower again and sent no vote request)
+		if cs.prevote && !cs.transfer && rr.CurrentTerm() == termAtRound+1 && rr.State() != raft.Follower && voterGrants < quorum {
+			mons = append(mons, fmt.Sprintf("term raised from %d to %d after pre-vote grants from only %d voters (quorum %d)", termAtRound, rr.CurrentTerm(), voterGrants, quorum))
+		}
+	}
 	// enter
 	if cs.transfer {
 		ch := make(chan raft.RPCResponse, 1)
@@ -291,8 +315,24 @@ func c14run(cs *c14case, r *rng, steps int, scripted []uint64) (events []uint64,
 				obs = append(obs, 98) // no such RPC pending: the implementation is in another phase
 				continue
 			}
+			if kind == 2 && ev[2] != 0 && isVoter[p.target] && ev[1] <= termAtRound+1 {
+				voterGrants++
+			}
 			p.reply <- pendAns{term: ev[1], granted: ev[2] != 0}
 			settle()
+			if kind == 2 {
+				checkElection()
+				if rr.CurrentTerm() > termAtRound {
+					// the election started (legitimately or not): later rounds start from the new term
+					termAtRound = rr.CurrentTerm()
+					voterGrants = 0
+					if isVoter[cs.self] {
+						voterGrants = 1
+					}
+				}
+			} else if rr.CurrentTerm() > termAtRound {
+				termAtRound = rr.CurrentTerm()
+			}
 			observe()
 		case 3:
 			old := tr.takeAll()
@@ -306,6 +346,12 @@ func c14run(cs *c14case, r *rng, steps int, scripted []uint64) (events []uint64,
 				p.reply <- pendAns{err: true}
 			}
 			settle()
+			checkElection()
+			termAtRound = rr.CurrentTerm()
+			voterGrants = 0
+			if isVoter[cs.self] {
+				voterGrants = 1
+			}
 			observe()
 		}
 	}
@@ -327,7 +373,10 @@ func runC14cand(cw *caseWriter, tier string, r *rng) {
 		sd uint64
 	}
 	jobs := make(chan job, cnt)
-	type res struct{ in, obs []uint64 }
+	type res struct {
+		in, obs []uint64
+		mons    []string
+	}
 	results := make(chan res, cnt)
 	for c := 0; c < cnt; c++ {
 		cs := &c14case{self: 1, prevote: r.chance(2, 3), term: 3, li: uint64(1 + r.intn(3)), lt: 2}
@@ -357,15 +406,19 @@ func runC14cand(cw *caseWriter, tier string, r *rng) {
 		go func() {
 			for j := range jobs {
 				rr := &rng{s: j.sd}
-				evs, obs := c14run(j.cs, rr, 3+rr.intn(8), nil)
-				results <- res{append(j.cs.header(), evs...), obs}
+				evs, obs, mons := c14run(j.cs, rr, 3+rr.intn(8), nil)
+				results <- res{append(j.cs.header(), evs...), obs, mons}
 			}
 		}()
 	}
 	for c := 0; c < cnt; c++ {
 		x := <-results
 		nt := len(x.in) > 20
-		cw.emit(cw.tag("k"), 14, x.in, x.obs, nt)
+		tag := cw.tag("k")
+		cw.emit(tag, 14, x.in, x.obs, nt)
+		for _, m := range x.mons {
+			cw.monitor("C14", tag, "term-raised-without-prevote-quorum-of-voters", "%s", m)
+		}
 	}
 	cw.stat("c14_candidate_sessions", cnt)
 }
@@ -377,8 +430,11 @@ func c14replay(cw *caseWriter, tag string, in []uint64) {
 	cs.cfg, p = decSrvs(in, 3)
 	cs.term, cs.vterm, cs.vcand, cs.li, cs.lt = in[p], in[p+1], in[p+2], in[p+3], in[p+4]
 	scripted := append([]uint64{}, in[p+5:]...)
-	_, obs := c14run(cs, &rng{s: 1}, 0, scripted)
+	_, obs, mons := c14run(cs, &rng{s: 1}, 0, scripted)
 	cw.emit(tag, 14, in, obs, true)
+	for _, m := range mons {
+		cw.monitor("C14", tag, "term-raised-without-prevote-quorum-of-voters", "%s", m)
+	}
 }
 
 func runC14(cw *caseWriter, tier string, seed uint64) {
